@@ -664,4 +664,9 @@ def check(ctx, rep):
     from .c09 import rule_no_shared_mutable_default
 
     rule_no_shared_mutable_default(ctx, rep)
+    from .c09 import rule_finding_owns_rule
+
+    # run(D)|f == run({f})|f: a Rule object interned per rule id / title is shared by the findings of every file that reports the rule; the
+    # report-time back-fill renames it for all of them, so what one file's unfixed findings say depends on which sibling was fixed
+    rule_finding_owns_rule(ctx, rep)
     rep.not_covered += ["sibling-file independence of arbitrary codemods", "thread-safety of libcst / functools.cache internals"]
